@@ -1755,6 +1755,17 @@ func (n *node) spawn(factory gen.ProcessFactory, options gen.ProcessOptionsExtra
 func (n *node) unregisterProcess(p *process, reason error) {
 	lib.VerifPoint("unreg.enter", p.pid.ID)
 	n.processes.Delete(p.pid)
+
+	// release the registered name before the links and monitors on the pid get
+	// notified: a supervisor restarts its child under the same name as soon
+	// as it receives the exit signal
+	if p.registered.Load() {
+		n.names.Delete(p.name)
+		lib.VerifPoint("unreg.name.deleted", p.pid.ID)
+		pname := gen.ProcessID{Name: p.name, Node: n.name}
+		n.RouteTerminateProcessID(pname, reason)
+	}
+
 	lib.VerifPoint("unreg.deleted", p.pid.ID)
 	n.RouteTerminatePID(p.pid, reason)
 	lib.VerifPoint("unreg.pid.drained", p.pid.ID)
@@ -1768,13 +1779,6 @@ func (n *node) unregisterProcess(p *process, reason error) {
 		n.waitprocesses.Done()
 	}
 	n.log.Trace("...unregisterProcess %s", p.pid)
-
-	if p.registered.Load() {
-		n.names.Delete(p.name)
-		lib.VerifPoint("unreg.name.deleted", p.pid.ID)
-		pname := gen.ProcessID{Name: p.name, Node: n.name}
-		n.RouteTerminateProcessID(pname, reason)
-	}
 
 	for _, a := range p.aliases {
 		n.aliases.Delete(a)
